@@ -188,7 +188,7 @@ Section Exec.
      SQLite).  Without RETURNING an upsert never uses insertmanyvalues (crud.py): DBAPI executemany. *)
   Definition batched (embed returning sorted : bool) (n : nat) (sa : list sa_clause) : bool :=
     returning && Nat.ltb 1 n &&
-    negb (use_row_at_a_time sorted returning false true embed (existsb has_set_par sa)).
+    negb (use_row_at_a_time sorted returning false true embed (existsb has_row_par sa)).
 
   Definition first_bp (l : list prow) : list (option Z) :=
     match l with (_, bp) :: _ => bp | [] => [] end.
